@@ -16,7 +16,12 @@ PROP = 'C02'
 RULE = ('case = (program, input, outcomes) with singleton reference outcome '
         'set; per case m runs: FIFO baseline, LIFO, kind-priority, seeded '
         'shuffles, drawn deviations, spec-cache eviction before every event, '
-        'different id salt; small programs additionally by DFS over all '
+        'different id salt, and "warm": after another execution of the same '
+        'definitions (other action defaults in the environment, flipped '
+        'input flags) ran to its end in the same engine without dropping '
+        'caches; the evaluated input of every action execution is part of '
+        'the compared rows (every second plain echo task takes its '
+        'parameters from the environment action defaults); small programs additionally by DFS over all '
         'choice sequences up to a cap. Non-trivial = a compared pair of runs '
         'whose event orders differ AND the program has >=2 concurrently '
         'enabled tasks (fork / several start tasks / join), or an eviction '
@@ -45,7 +50,26 @@ def variants(case, n_shuffles, D=None):
                     i % 2 == 1, 11 + i))
     out.append(('drawn', case['sched'], False, 5))
     out.append(('fifo-evict', base, True, case.get('salt', 0)))
+    out.append(('warm', base, False, case.get('salt', 0)))
     return out
+
+
+def _with_env_defaults(case):
+    """Every case runs under an environment with action defaults; tasks
+    rendered as a plain `std.echo output="x"` get no input at all on every
+    second occurrence, so their parameters come from those defaults."""
+    case = dict(case)
+    case['env'] = {'__actions': {'std.echo': {'output': 'envE'}}}
+    n = 0
+    for nm in case['prog']['order']:
+        t = case['prog']['tasks'][nm]
+        f = t.get('form') or {}
+        if f.get('action') == 'echo' and not t.get('action') \
+                and not t.get('workflow'):
+            n += 1
+            if n % 2 == 1:
+                f['action'] = 'echo_bare'
+    return case
 
 
 def check_case(case, stats=None, n_shuffles=3, dfs_cap=0):
@@ -80,10 +104,20 @@ def check_case(case, stats=None, n_shuffles=3, dfs_cap=0):
         c['salt'] = salt
         if evict:
             c['evict'] = ['all']
+        if label == 'warm':
+            # the same definitions were already run once in this engine,
+            # with other action defaults and flipped input flags
+            c['warm'] = {
+                'env': {'__actions': {'std.echo': {'output': 'envWARM'}}},
+                'input': {k: not v for k, v in
+                          (prog.get('input') or {}).items()
+                          if isinstance(v, bool)}}
         res = enginerun.run_case(c)
         if res.start_error is not None or not res.quiescent:
             return None, res
-        return enginerun.canon_rows(res, error_output=not forced), res
+        return enginerun.canon_rows(res, error_output=not forced,
+                                    with_input=True,
+                                    root=res.wf_ex_id), res
 
     base_rows = None
     base_res = None
@@ -168,6 +202,7 @@ def shard_main(shard, nshards, seed, tier, opts):
     sim.boot(sched_type)
     strat = common.engine_case_strategy(max_tasks=opts.get('max_tasks', 7),
                                         max_devs=opts.get('max_devs', 6))
+    strat = strat.map(_with_env_defaults)
     fail = runner.drive(
         strat, lambda c: check_case(c, st, opts.get('n_shuffles', 3),
                                     opts.get('dfs_cap', 0)),
